@@ -49,8 +49,8 @@ type pev struct {
 	ambiguous bool // met a situation the statement does not pin down
 	maxChain  int  // longest chain of plain references followed
 	chain     int
-	viaRef    int  // path walks that passed a reference-valued setting
-	cycInWalk int  // walks failing because a setting on the path is cyclic
+	viaRef    int // path walks that passed a reference-valued setting
+	cycInWalk int // walks failing because a setting on the path is cyclic
 }
 
 const pevStepLimit = 3000
